@@ -47,6 +47,60 @@ func matPointees(c *props.Ctx, fns []*ssa.Function) {
 		}
 	}
 	isPtr := func(t types.Type) bool { _, ok := t.Underlying().(*types.Pointer); return ok }
+	// a struct value (a by-value copy of the material) that still holds pointers shared with the original
+	var holdsPointers func(t types.Type, d int) bool
+	holdsPointers = func(t types.Type, d int) bool {
+		st, ok := t.Underlying().(*types.Struct)
+		if !ok || d > 3 {
+			return false
+		}
+		for i := 0; i < st.NumFields(); i++ {
+			ft := st.Field(i).Type()
+			if isPtr(ft) || holdsPointers(ft, d+1) {
+				return true
+			}
+		}
+		return false
+	}
+	carries := func(t types.Type) bool { return isPtr(t) || holdsPointers(t, 0) }
+	// loads of everything stored in a local array / slice literal that received a tainted value
+	loadsOfLocalArray := func(addr ssa.Value) []ssa.Value {
+		ia, ok := addr.(*ssa.IndexAddr)
+		if !ok {
+			return nil
+		}
+		root := ia.X
+		if sl, ok := root.(*ssa.Slice); ok {
+			root = sl.X
+		}
+		al, ok := root.(*ssa.Alloc)
+		if !ok {
+			return nil
+		}
+		var out []ssa.Value
+		bases := []ssa.Value{al}
+		for _, r := range ssau.Refs(al) {
+			if sl, ok := r.(*ssa.Slice); ok && sl.X == al {
+				bases = append(bases, sl)
+			}
+		}
+		for _, b := range bases {
+			for _, r := range ssau.Refs(b) {
+				if ia2, ok := r.(*ssa.IndexAddr); ok && ia2.X == b {
+					for _, rr := range ssau.Refs(ia2) {
+						if u, ok := rr.(*ssa.UnOp); ok && u.Op == token.MUL && u.X == ia2 {
+							out = append(out, u)
+						}
+					}
+				}
+				// for _, x := range slice: the element comes from a Next / Extract or an IndexAddr over the φ-carried slice
+				if ph, ok := r.(*ssa.Phi); ok {
+					_ = ph
+				}
+			}
+		}
+		return out
+	}
 	// seeds
 	for _, f := range fns {
 		ssau.AllInstrs(f, func(in ssa.Instruction) {
@@ -83,19 +137,34 @@ func matPointees(c *props.Ctx, fns []*ssa.Function) {
 					add(x)
 				}
 			case *ssa.UnOp:
-				// loading a pointer stored inside the material (ColorTextureURI *string …)
-				if x.Op == token.MUL && x.X == v && isPtr(x.Type()) {
+				// loading a pointer stored inside the material (ColorTextureURI *string …), or a by-value copy of
+				// the material that still holds those pointers
+				if x.Op == token.MUL && x.X == v && carries(x.Type()) {
+					add(x)
+				}
+			case *ssa.Field:
+				if x.X == v && carries(x.Type()) {
 					add(x)
 				}
 			case *ssa.Store:
-				// copy of the pointer into a local cell
+				// copy of the pointer (or of a struct holding it) into a local cell
 				if x.Val == v {
 					if a, ok := x.Addr.(*ssa.Alloc); ok {
 						for _, rr := range ssau.Refs(a) {
 							if u, ok := rr.(*ssa.UnOp); ok && u.Op == token.MUL && u.X == a {
 								add(u)
 							}
+							if fa, ok := rr.(*ssa.FieldAddr); ok && fa.X == a {
+								for _, r3 := range ssau.Refs(fa) {
+									if u, ok := r3.(*ssa.UnOp); ok && u.Op == token.MUL && u.X == fa && carries(u.Type()) {
+										add(u)
+									}
+								}
+							}
 						}
+					}
+					for _, u := range loadsOfLocalArray(x.Addr) {
+						add(u)
 					}
 				}
 			case ssa.CallInstruction:
